@@ -902,6 +902,19 @@ func (env *Env) call(x ECall) TV {
 		}
 		args = append(args, v.T)
 	}
+	if sig.sf.Inline && sig.body != nil {
+		bs := w.specBinders(sig)
+		m := map[string]*Term{}
+		for i, b := range bs {
+			m[b.Name] = args[i]
+		}
+		if env.used != nil {
+			for _, d := range sig.deps {
+				env.used.specs[d] = true
+			}
+		}
+		return TV{T: expandBounded(renameBound(Subst(sig.body, m))), Ty: sig.result}
+	}
 	if env.used != nil {
 		env.used.specs[x.Fn] = true
 	}
@@ -1093,4 +1106,119 @@ func hasQuant(t *Term) bool {
 		}
 	})
 	return found
+}
+
+// renameBound gives every quantifier of an inlined body fresh binder names.
+func renameBound(t *Term) *Term {
+	if len(t.Vars) > 0 {
+		m := map[string]*Term{}
+		nv := make([]Binder, len(t.Vars))
+		for i, v := range t.Vars {
+			n := freshBinder("in")
+			nv[i] = Binder{n, v.Sort}
+			m[v.Name] = Sym(n, v.Sort)
+		}
+		body := renameBound(Subst(t.Args[0], m))
+		var pats [][]*Term
+		for _, p := range t.Pats {
+			np := make([]*Term, len(p))
+			for i, a := range p {
+				np[i] = Subst(a, m)
+			}
+			pats = append(pats, np)
+		}
+		return &Term{Op: t.Op, Args: []*Term{body}, Sort: SBool, Vars: nv, Pats: pats}
+	}
+	if len(t.Args) == 0 {
+		return t
+	}
+	changed := false
+	args := make([]*Term, len(t.Args))
+	for i, a := range t.Args {
+		args[i] = renameBound(a)
+		if args[i] != a {
+			changed = true
+		}
+	}
+	if !changed {
+		return t
+	}
+	return rebuild(t, args, nil)
+}
+
+// expandBounded unrolls forall/exists over a single int binder whose range
+// guard has literal bounds (at most 32 values).
+func expandBounded(t *Term) *Term {
+	if len(t.Args) == 0 && len(t.Vars) == 0 {
+		return t
+	}
+	args := make([]*Term, len(t.Args))
+	changed := false
+	for i, a := range t.Args {
+		args[i] = expandBounded(a)
+		if args[i] != a {
+			changed = true
+		}
+	}
+	if len(t.Vars) == 1 && t.Vars[0].Sort == SInt {
+		body := args[0]
+		v := t.Vars[0].Name
+		var guard []*Term
+		var rest *Term
+		switch {
+		case t.Op == "forall" && body.Op == "=>":
+			guard = conj(body.Args[0])
+			rest = body.Args[1]
+		case t.Op == "exists" && body.Op == "and":
+			guard = body.Args
+		case t.Op == "forall" && body.Op == "true":
+			return True
+		}
+		lo, hi, okLo, okHi := int64(0), int64(0), false, false
+		var others []*Term
+		for _, g := range guard {
+			if g.Op == "<=" && len(g.Args) == 2 && g.Args[1].Op == v && len(g.Args[1].Args) == 0 {
+				if n, ok := g.Args[0].IntVal(); ok {
+					lo, okLo = n, true
+					continue
+				}
+			}
+			if g.Op == "<" && len(g.Args) == 2 && g.Args[0].Op == v && len(g.Args[0].Args) == 0 {
+				if n, ok := g.Args[1].IntVal(); ok {
+					hi, okHi = n, true
+					continue
+				}
+			}
+			others = append(others, g)
+		}
+		if okLo && okHi && hi-lo <= 32 {
+			var parts []*Term
+			for k := lo; k < hi; k++ {
+				m := map[string]*Term{v: IntLit(k)}
+				if t.Op == "forall" {
+					parts = append(parts, Subst(Implies(And(others...), rest), m))
+				} else {
+					parts = append(parts, Subst(And(others...), m))
+				}
+			}
+			if t.Op == "forall" {
+				return And(parts...)
+			}
+			return Or(parts...)
+		}
+	}
+	if !changed {
+		return t
+	}
+	if len(t.Vars) > 0 {
+		return &Term{Op: t.Op, Args: args, Sort: t.Sort, Vars: t.Vars, Pats: t.Pats}
+	}
+	return rebuild(t, args, t.Pats)
+}
+
+func conj(t *Term) []*Term {
+	if t.Op == "and" {
+		return t.Args
+	}
+	return []*Term{t}
 }
